@@ -108,6 +108,7 @@ impl V {
     pub fn expected_top(&self) -> V {
         match self {
             V::Pre { text, .. } => V::Str(text.clone()),
+            other if via_serde(other) => norm_serde(other).norm(),
             other => other.norm(),
         }
     }
@@ -172,6 +173,46 @@ impl V {
             V::Obj(o) => o.iter().for_each(|(_, x)| x.visit(f)),
             _ => {}
         }
+    }
+}
+
+/// JSON objects made of JSON-expressible values only (null, bool, integers, finite floats, strings that cannot be
+/// taken for a date, arrays, objects) are - for every second such value, by a hash of the value - handed to tantivy the
+/// way an application parsing JSON does: as a `serde_json::Value` converted with `OwnedValue::from`.  That conversion
+/// is documented to keep integers exact: i64 if the number fits, u64 otherwise, f64 only for non-integers.
+pub fn via_serde(v: &V) -> bool {
+    fn expressible(v: &V) -> bool {
+        match v {
+            V::Null | V::Bool(_) | V::I64(_) | V::U64(_) => true,
+            V::F64(bits) => f64::from_bits(*bits).is_finite(),
+            V::Str(s) => !(s.len() >= 10 && s.as_bytes()[4] == b'-'),
+            V::Arr(a) => a.iter().all(expressible),
+            V::Obj(o) => o.iter().all(|(_, x)| expressible(x)),
+            _ => false,
+        }
+    }
+    matches!(v, V::Obj(_)) && expressible(v) && crate::engine::fnv(format!("{v:?}").as_bytes()) % 2 == 0
+}
+fn to_serde(v: &V) -> serde_json::Value {
+    match v {
+        V::Null => serde_json::Value::Null,
+        V::Bool(b) => serde_json::Value::Bool(*b),
+        V::I64(x) => serde_json::Value::from(*x),
+        V::U64(x) => serde_json::Value::from(*x),
+        V::F64(bits) => serde_json::Number::from_f64(f64::from_bits(*bits)).map(serde_json::Value::Number).unwrap_or(serde_json::Value::Null),
+        V::Str(s) => serde_json::Value::String(s.clone()),
+        V::Arr(a) => serde_json::Value::Array(a.iter().map(to_serde).collect()),
+        V::Obj(o) => serde_json::Value::Object(o.iter().map(|(k, x)| (k.clone(), to_serde(x))).collect()),
+        _ => serde_json::Value::Null,
+    }
+}
+/// the value `OwnedValue::from(serde_json::Value)` stands for: a non-negative integer that fits an i64 is an i64
+fn norm_serde(v: &V) -> V {
+    match v {
+        V::U64(x) if *x <= i64::MAX as u64 => V::I64(*x as i64),
+        V::Arr(a) => V::Arr(a.iter().map(norm_serde).collect()),
+        V::Obj(o) => V::Obj(o.iter().map(|(k, x)| (k.clone(), norm_serde(x))).collect()),
+        other => other.clone(),
     }
 }
 
@@ -416,6 +457,9 @@ fn add_one(doc: &mut TantivyDocument, field: Field, v: &V, typed: bool) {
             _ => {}
         }
     }
+    if via_serde(v) {
+        return doc.add_field_value(field, &OwnedValue::from(to_serde(v)));
+    }
     doc.add_field_value(field, &to_owned(v));
 }
 
@@ -478,7 +522,7 @@ impl Document for VecDoc {
     }
 }
 pub fn to_vec_doc(d: &DocSpec, id: u64) -> Result<VecDoc, Failure> {
-    Ok(VecDoc(field_values(d, id)?.into_iter().map(|(f, v)| (Field::from_field_id(f), to_owned(&v))).collect()))
+    Ok(VecDoc(field_values(d, id)?.into_iter().map(|(f, v)| (Field::from_field_id(f), if via_serde(&v) { OwnedValue::from(to_serde(&v)) } else { to_owned(&v) })).collect()))
 }
 
 /// A second `DocumentDeserialize` implementation: the raw (field, value) sequence, not going through
@@ -720,17 +764,17 @@ fn tree(leaf: BoxedStrategy<V>) -> BoxedStrategy<V> {
 }
 /// a chain of `depth` nested containers (alternating by `shape` bits) around a leaf, with siblings
 fn chain(leaf: BoxedStrategy<V>) -> BoxedStrategy<V> {
-    (1usize..=8, any::<u16>(), leaf.clone(), leaf)
+    (prop_oneof![6 => 1usize..=8, 2 => 9usize..=24, 1 => 25usize..=70], any::<u16>(), leaf.clone(), leaf)
         .prop_map(|(depth, shape, inner, sibling)| {
             let mut v = inner;
             for lvl in 0..depth {
-                v = if (shape >> lvl) & 1 == 0 {
-                    if (shape >> (lvl + 8)) & 1 == 0 {
+                v = if (shape >> (lvl % 8)) & 1 == 0 {
+                    if (shape >> (lvl % 8 + 8)) & 1 == 0 {
                         V::Arr(vec![v])
                     } else {
                         V::Arr(vec![sibling.clone(), v, V::Arr(vec![])])
                     }
-                } else if (shape >> (lvl + 8)) & 1 == 0 {
+                } else if (shape >> (lvl % 8 + 8)) & 1 == 0 {
                     V::Obj(vec![("k".into(), v)])
                 } else {
                     V::Obj(vec![("z".into(), sibling.clone()), ("k".into(), v), ("a".into(), V::Obj(vec![]))])
